@@ -245,6 +245,17 @@ def _t_worker(batch):
                     msg = "T decreases from %r to %r at %g" % (prev, got, x * sigma)
                 prev = got
                 out.append(((z, e), case, msg))
+            # the array argument in no particular order and with a repeated level: element i is T(level i)
+            xs2 = xs[1::2] + xs[::2] + xs[:1]
+            try:
+                arr2 = T(np.array([x * sigma for x in xs2], dtype=float))
+                bad = [x for i, x in enumerate(xs2)
+                       if len(arr2) != len(xs2) or float(arr2[i]) != float(T(float(x * sigma)))]
+                if bad:
+                    out.append(((z, e), None, "T(array %s) is not element-wise T(scalar): differs at %s" % (
+                        [x * sigma for x in xs2], [x * sigma for x in bad][:4])))
+            except Exception as ex:  # noqa
+                out.append(((z, e), None, "array call with unsorted / repeated levels %s raised %r" % (xs2, ex)))
             lowest = float(T(float(z[0] * sigma)))
             below = float(T(float(z[0] * sigma - 3.0)))
             if lowest != tmin or below != tmin:
@@ -301,7 +312,8 @@ def c15(chk, tier):
                     chk.sample({"knots": key[0], "log2_K": key[1], "level": case["x"], "A_B_times_scale": case["ab"]})
                 if msg:
                     chk.violation("spline transmissivity knots %s log2 K %s: %s" % (list(key[0]), list(key[1]), msg),
-                                  {"kind": "T", "z": list(key[0]), "e": list(key[1]), "case": case, "detail": msg})
+                                  {"kind": "T", "z": list(key[0]), "e": list(key[1]), "case": case, "detail": msg,
+                                   "cases": None if case else groups[key]})
     rng = random.Random(seed() + 15)
     cases = [random_T_case(rng, i) for i in range(150 if q else 2000)]
     fails = validate_trace(chk, cases, "TraceSpline on %d random transmissivities" % len(cases))
@@ -480,7 +492,7 @@ def replay_file(chk, rp):
                 print("replay:", msg)
                 chk.violation("replayed: " + msg, rp)
     elif kind == "T":
-        out = _t_worker([((tuple(rp["z"]), tuple(rp["e"])), [rp["case"]] if rp["case"] else [])])
+        out = _t_worker([((tuple(rp["z"]), tuple(rp["e"])), [rp["case"]] if rp["case"] else (rp.get("cases") or []))])
         for key, case, msg in out:
             if msg:
                 print("replay:", msg)
